@@ -23,9 +23,9 @@ Lemma load_P : forall st spec0 range asset in_dyn root attr count,
 Proof.
   intros st spec0 range asset in_dyn root attr count H. unfold load.
   set (s := load_target st spec0).
-  destruct (asset && N.eqb attr 9 && negb (mem s (w_wasm_ext W))).
+  destruct (sp_reject W s asset attr).
   { eapply P_ext; [| | | |exact H]; reflexivity. }
-  destruct (asset && negb (N.eqb attr 0) && negb (N.eqb attr 9) && negb (attr_allowed o attr)).
+  destruct (attr_reject o asset attr).
   { eapply P_ext; [| | | |exact H]; reflexivity. }
   assert (Hp : P match class_of W s with
                  | SNode => (set_slot st s (BMod (node_module s))) <| st_has_node := true |>
@@ -53,7 +53,7 @@ Qed.
 
 Lemma visit_dep_P : forall st da, P st -> P (fst (visit_dep W o st da)).
 Proof.
-  intros st [d asset] H. unfold visit_dep. cbn [fst snd].
+  intros st [d [asset sp]] H. unfold visit_dep. cbn [fst snd dfl_asset dfl_sp].
   destruct (d_dyn d && bo_skip_dynamic o); [exact H|]. cbn [fst].
   set (st1 := if include_code (bo_kind o) || is_rnone (d_type d)
               then match d_code d with
